@@ -237,6 +237,10 @@ func C05(c *core.Ctx) error {
 		args = append(args, fmt.Sprintf("-bound=%d", s.bound), fmt.Sprintf("-t2len=%d", s.t2), fmt.Sprintf("-t3len=%d", s.t3),
 			fmt.Sprintf("-shard=%d", s.shard), fmt.Sprintf("-nshard=%d", s.nshard), fmt.Sprintf("-deadline=%d", int(remaining.Seconds()*0.8)))
 		r := core.Run(c.Scratch, append(core.UserEnv(), "GOMAXPROCS=2"), remaining+time.Minute, "", s.bin, args...)
+		if core.ResourceFailure(r) {
+			c.Skip("harness %s %v timed out or was killed", s.v.name, args)
+			return
+		}
 		var res c05Result
 		if r.Exit != 0 || json.Unmarshal([]byte(lastLine(r.Stdout)), &res) != nil {
 			c.Harness("c05 harness %s %v: exit %d: %s", s.v.name, args, r.Exit, firstN(r.Stderr+r.Stdout, 800))
